@@ -136,6 +136,16 @@ STRENGTHENED = {
     "C15-6": "soft deadline per item: counterexamples of the explored paths are reported although the change multiplies the paths "
              "(the run takes about half an hour under this change)",
     "C17-6": "stopping rule of one iteration as a clause",
+    # ---- round 6 (several of these were strengthened from the seeders' reports before the first evaluation finished; the
+    #      first evaluation of the check as registered at that time is what "missed" refers to)
+    "C01-11": "complex nodal vectors through Strain / ElementAverage / ElementOperation, NumPy's real/complex casting modelled",
+    "C01-12": "the complex eigenvector contracts of the dense generalised adjoint are not decided by the solver in time: two "
+              "concrete finite-difference regression items (complex Hermitian A, complex Hermitian B != B^T; real LAPACK, "
+              "fixed generic values) were added and are labelled as not a solver verdict",
+    "C02-11": "C02's graphs are real; caught by the new scalar-mixed configurations of C18 (real and complex contributions in turn)",
+    "C02-12": "a second evaluation of the same network after the source arrays were updated in place (C18 caught it as registered)",
+    "C07-11": "one load case as an (n, 1) block through the wrapped solver, a one-dof system (C07); single-column blocks in C06",
+    "C11-12": "a complex-conjugate pair with a user sorting function that orders by the imaginary part",
 }
 NOT_CAUGHT = {
     "C10-3": "outside the claim: the fault needs integer-typed design vectors (np.concatenate keeps int64, np.zeros_like then truncates "
